@@ -39,7 +39,7 @@ CLASSES = ["tables_relion", "tables_stopgap", "tables_multi", "tables_empty_last
 def plan(tier):
     if tier == "quick":
         return dict(n_cases=420, shards=1, classes=CLASSES, timeout_s=600,
-                    min_evals={"star_written": 200, "star_read": 400, "roundtrip": 200})
+                    min_evals={"star_written": 350, "star_read": 550, "roundtrip": 350})
     return dict(n_cases=9800, shards=14, classes=CLASSES, timeout_s=3000,
                 min_evals={"star_written": 4000, "star_read": 9000, "roundtrip": 4000})
 
@@ -483,53 +483,73 @@ def nontrivial(case):
 
 
 # ---- driver -------------------------------------------------------------------------------------
+def _write_read_compare(ctx, S, tables, names, numbered, comments, kinds, path, label=""):
+    """write the tables (with whatever index they carry), read the file back, compare positionally"""
+    frames = [t.copy() for t in tables]
+    ok, _ = ctx.call("Starfile.write" + label, S.write, frames, path, specifiers=list(names), number_columns=numbered, comments=comments)
+    if not ok:
+        return
+    ok, res = ctx.call("Starfile.read" + label, S.read, path)
+    if not ok:
+        return
+    rframes, rspecs = res[0], res[1]
+    w = None
+    if list(rspecs) != list(names):
+        w = {"what": "block names", "read": list(rspecs), "written": list(names)}
+    else:
+        for bi, (rf, t, kk) in enumerate(zip(rframes, tables, kinds)):
+            if list(rf.columns) != list(t.columns) or len(rf) != len(t):
+                w = {"what": "shape/labels", "block": bi, "read": [list(rf.columns)[:6], len(rf)], "written": [list(t.columns)[:6], len(t)]}
+                break
+            for c, k in zip(t.columns, kk):
+                if len(t) == 0:
+                    continue
+                if k == "text":
+                    a, b = list(rf[c]), list(t[c])
+                    bad = [j for j, (x, y) in enumerate(zip(a, b)) if x != y]
+                    if bad:
+                        w = {"what": "text cell", "block": bi, "column": c, "row": bad[0], "read": repr(a[bad[0]]), "written": b[bad[0]]}
+                        break
+                else:
+                    if not pd.api.types.is_numeric_dtype(rf[c].dtype):
+                        w = {"what": "numeric column came back as text", "block": bi, "column": c}
+                        break
+                    if k == "int":
+                        okv = np.array([int(a) == int(b) for a, b in zip(rf[c].tolist(), t[c].tolist())]) if rf[c].dtype.kind in "iu" else np.zeros(len(t), bool)
+                    else:
+                        okv = num_close(rf[c].to_numpy(dtype=float), t[c].to_numpy(dtype=float), TOL_ABS, TOL_REL)
+                    if not okv.all():
+                        j = int(np.argmin(okv))
+                        w = {"what": "numeric cell", "block": bi, "column": c, "row": j, "read": float(rf[c].iloc[j]), "written": float(t[c].iloc[j])}
+                        break
+            if w:
+                break
+    if w and label:
+        w["stage"] = label.strip()
+    ctx.check("roundtrip", w is None, w)
+
+
 def run_case(ctx, case):
     S = ctx.sf.Starfile
-    path = os.path.join(ctx.scratch, "s_%d.star" % case["i"])
+    # a small pool of REUSED paths: later cases overwrite files that earlier cases wrote and read (iterating on one file name)
+    path = os.path.join(ctx.scratch, "s_%d.star" % (case["i"] % 3)) if case["i"] % 4 else os.path.join(ctx.scratch, "u_%d.star" % case["i"])
     if case["mode"] == "tables":
         if any(k is None for k in case["kinds"]) or write_in_domain(case["tables"], case["names"]) is None:
             raise RuntimeError("generator produced a table outside the quantifier")
-        frames = [t.copy() for t in case["tables"]]
-        ok, _ = ctx.call("Starfile.write", S.write, frames, path, specifiers=list(case["names"]), number_columns=case["numbered"],
-                         comments=case["comments"])
-        if not ok:
-            return
-        ok, res = ctx.call("Starfile.read", S.read, path)
-        if not ok:
-            return
-        rframes, rspecs = res[0], res[1]
-        w = None
-        if list(rspecs) != case["names"]:
-            w = {"what": "block names", "read": list(rspecs), "written": case["names"]}
-        else:
-            for bi, (rf, t, kk) in enumerate(zip(rframes, case["tables"], case["kinds"])):
-                if list(rf.columns) != list(t.columns) or len(rf) != len(t):
-                    w = {"what": "shape/labels", "block": bi, "read": [list(rf.columns)[:6], len(rf)], "written": [list(t.columns)[:6], len(t)]}
-                    break
-                for c, k in zip(t.columns, kk):
-                    if len(t) == 0:
-                        continue
-                    if k == "text":
-                        a, b = list(rf[c]), list(t[c])
-                        bad = [j for j, (x, y) in enumerate(zip(a, b)) if x != y]
-                        if bad:
-                            w = {"what": "text cell", "block": bi, "column": c, "row": bad[0], "read": repr(a[bad[0]]), "written": b[bad[0]]}
-                            break
-                    else:
-                        if not pd.api.types.is_numeric_dtype(rf[c].dtype):
-                            w = {"what": "numeric column came back as text", "block": bi, "column": c}
-                            break
-                        if k == "int":
-                            okv = np.array([int(a) == int(b) for a, b in zip(rf[c].tolist(), t[c].tolist())]) if rf[c].dtype.kind in "iu" else np.zeros(len(t), bool)
-                        else:
-                            okv = num_close(rf[c].to_numpy(dtype=float), t[c].to_numpy(dtype=float), TOL_ABS, TOL_REL)
-                        if not okv.all():
-                            j = int(np.argmin(okv))
-                            w = {"what": "numeric cell", "block": bi, "column": c, "row": j, "read": float(rf[c].iloc[j]), "written": float(t[c].iloc[j])}
-                            break
-                if w:
-                    break
-        ctx.check("roundtrip", w is None, w)
+        rng = ctx.rng(case["i"], 3)
+        tables = []
+        for t in case["tables"]:
+            t = t.copy()
+            r = rng.random()
+            if len(t) > 1 and r < 0.35:          # the table's own row labels are not 0..n-1 (sorted / filtered / concatenated frames)
+                kind = int(rng.integers(0, 3))
+                t.index = [rng.permutation(len(t)), np.sort(rng.choice(np.arange(3 * len(t) + 5), len(t), replace=False)), np.arange(len(t))[::-1]][kind]
+            tables.append(t)
+        _write_read_compare(ctx, S, tables, case["names"], case["numbered"], case["comments"], case["kinds"], path)
+        # the same path rewritten at once with different content of exactly the same byte length (rows in reverse order)
+        if any(len(t) > 1 for t in tables):
+            tables_b = [t.iloc[::-1].reset_index(drop=True) for t in case["tables"]]
+            _write_read_compare(ctx, S, tables_b, case["names"], case["numbered"], case["comments"], case["kinds"], path, label=" (same path, rows reversed)")
     else:
         with open(path, "wb") as f:
             f.write(case["text"].encode("utf-8"))
@@ -541,7 +561,3 @@ def run_case(ctx, case):
         if ok and len(case["blocks"]) > 1:
             k = case["i"] % len(case["blocks"])
             ctx.call("Starfile.read(data_id)", S.read, path, k)
-    try:
-        os.remove(path)
-    except OSError:
-        pass
